@@ -10,14 +10,14 @@
       refdir := any function on unit points       (Point.referenceDir; no law about it is needed)
 
     Discharged here from the C02 theorems: law_peq_refl, law_peq_sym, law_peq_trans,
-    law_sign_zero_iff, law_triage_sound (all closed); law_sign_rotate, law_sign_swap,
-    law_sign_range (under H_STABLE_DET).  [H_TANGENT] (= law_tangent_sound for this instance)
+    law_sign_zero_iff, law_triage_sound, law_sign_rotate, law_sign_swap, law_sign_range
+    (all closed: H-TRIAGE-DET and H-STABLE-DET are C02 theorems).  [H_TANGENT] (= law_tangent_sound for this instance)
     stays a premise.  law_sign_peq and law_occw_split are NOT discharged (C02 has no congruence
     of exact_sign under +-0 twins and no four-ray cyclic-order lemma); only
     crosser_argument_vertex / angle_contains_vertex_exactly_one use them. *)
 From Coq Require Import ZArith List Bool Reals Floats Lia.
 From Geo Require Import Base.GoPrim Base.F64 Base.Exact Gen.R3 Gen.S2Pred Model.Pred
-  Proofs.C02_Exact Proofs.C02_Float Proofs.C02_TriageDet Proofs.C02_Robust Proofs.C02_IsUnit.
+  Proofs.C02_Exact Proofs.C02_Float Proofs.C02_TriageDet Proofs.C02_StableDet Proofs.C02_Robust Proofs.C02_IsUnit.
 From Geo Require Import Model.Crosser Model.CrosserExec Proofs.C03_Crosser Proofs.C03_Vertex.
 Import ListNotations.
 Local Open Scope Z_scope.
@@ -69,8 +69,7 @@ Proof.
     [contradiction | reflexivity].
 Qed.
 
-Section UnderStable.
-Hypothesis HS : H_STABLE_DET.
+Section Real.
 
 Lemma u_sign_rotate : law_sign_rotate upoint u_sign.
 Proof. intros a b c. unfold u_sign. apply robust_sign_rotate; auto using upt_unit. Qed.
@@ -79,7 +78,7 @@ Proof. intros a b c. unfold u_sign. apply robust_sign_swap; auto using upt_unit.
 Lemma u_sign_range : law_sign_range upoint u_sign.
 Proof.
   intros a b c. unfold u_sign.
-  rewrite (robust_sign_spec HS _ _ _ (upt_unit a) (upt_unit b) (upt_unit c)).
+  rewrite (robust_sign_spec _ _ _ (upt_unit a) (upt_unit b) (upt_unit c)).
   destruct (identical2 (upt a) (upt b) (upt c)); [auto|].
   destruct (exact_sign_pm1 (upt a) (upt b) (upt c)) as [-> | ->]; auto.
 Qed.
@@ -87,7 +86,7 @@ Qed.
 Hypothesis HT : H_TANGENT.
 Variable refdir : upoint -> upoint.
 
-(** ** The C03 theorems for the real predicates: only H_STABLE_DET and H_TANGENT remain *)
+(** ** The C03 theorems for the real predicates: only H_TANGENT remains *)
 Theorem crossing_symmetric_real_l : forall a b c d,
   crossing_spec upoint u_peq u_sign b a c d = crossing_spec upoint u_peq u_sign a b c d /\
   crossing_spec upoint u_peq u_sign a b d c = crossing_spec upoint u_peq u_sign a b c d /\
@@ -130,7 +129,7 @@ Proof.
            u_sign_zero_iff).
 Qed.
 
-End UnderStable.
+End Real.
 
 (** closed: no hypothesis at all *)
 Theorem maybe_iff_shared_endpoint_real_l : forall a b c d,
